@@ -5,6 +5,15 @@ T = "RsslVerif.Thm.C02."
 TS = "RsslVerif.Thm.C02Sem."
 TV = "RsslVerif.Thm.C02Vec."
 TD = "RsslVerif.Thm.C02Dup."
+TX = "RsslVerif.Thm.C02Text."
+# the text leg: the tree C02 reasons about reaches the user as text printed by rssl_formatter (Target::Msl).  Printing and
+# reading back is property C09's; its table obligations (re-extracted precedence / associativity / side tables of
+# format_subexpression, the parser's levels, fingerprints of the hand-modelled formatter functions) and its round-trip theorems
+# are C02 obligations too: a change of the formatter's parenthesis rule breaks them here as well (seeded mutant C02-4)
+C09_CITED = ["tables_agree", "assoc_agrees", "ternary_level", "unary_tables_agree", "paren_rule_matches_grammar",
+             "roundtrip_expr_partial", "roundtrip_subexpr_partial", "roundtrip_xexpr_partial", "roundtrip_stmt_partial",
+             "roundtrip_block_partial", "roundtrip_decl_partial", "negative_literal_binds_like_minus", "source_fingerprints"]
+TEXT_THEOREMS = ["right_nested_chain_regrouped_changes_meaning"]
 DUP_THEOREMS = ["dup_sites_guarded", "guard_rows_are_ir_constructors", "repeatable_operand_is_pure_of_sound", "repeatable_operand_is_pure",
                 "struct_cast_meaning_kept", "struct_cast_refuses_iff", "wf_toD", "repeatable_operand_is_pure_ir_of_sound",
                 "repeatable_operand_is_pure_ir", "index_blind_test_repeats_effect"]
@@ -207,8 +216,9 @@ def custom_vec(ctx):
 
 SPEC = {
     "id": "C02",
-    "gens": ["UsageTables", "MslGenTables", "MslVecTables", "MslDupSites"],
-    "lean_modules": ["RsslVerif.Thm.C02", "RsslVerif.Thm.C02Sem", "RsslVerif.Thm.C02Vec", "RsslVerif.Thm.C02Dup"],
+    "gens": ["UsageTables", "MslGenTables", "MslVecTables", "MslDupSites", "FmtTables", "ParseTables", "SyntaxTables"],
+    "lean_modules": ["RsslVerif.Thm.C02", "RsslVerif.Thm.C02Sem", "RsslVerif.Thm.C02Vec", "RsslVerif.Thm.C02Dup", "RsslVerif.Thm.C02Text",
+                     "RsslVerif.Thm.C09"],
     "theorems": [T + n for n in [
         "tables_as_modelled", "all_positions_descended", "implicit_names_agree",
         "recurse_no_panic", "recurse_terminates", "measure_bounded_and_increasing", "close_is_reachability",
@@ -216,7 +226,8 @@ SPEC = {
         "requiredP_order_independent", "required_monotone", "args_align", "args_unchanged_without_implicit", "args_aligned_with_defaults",
         "threaded_exactly_partial", "calculateLocal_wf", "closeProgram_ok", "threaded_exactly_program_partial",
         "mentions_calculateLocal", "threaded_exactly",
-        "default_arguments_analysed", "global_initialisers_analysed"]] + [TS + n for n in SEM_THEOREMS] + [TV + n for n in VEC_THEOREMS] + [TD + n for n in DUP_THEOREMS],
+        "default_arguments_analysed", "global_initialisers_analysed"]] + [TS + n for n in SEM_THEOREMS] + [TV + n for n in VEC_THEOREMS] + [TD + n for n in DUP_THEOREMS]
+                + [TX + n for n in TEXT_THEOREMS] + ["RsslVerif.Thm.C09." + n for n in C09_CITED],
     "harness": "c02",
     "nontrivial": nontrivial,
     "finding_key": finding_key,
@@ -262,7 +273,16 @@ SPEC = {
             "shapes (nested structs, arrays of structs, vector members, mixed element kinds) and five statement positions; the two "
             "evaluators count effects exactly (final inout arguments, final statics), so an operand written twice is a difference. C02.dup "
             "sends every struct cast of these modules (type shape + constructor tree of the operand, read off the real ir::Module) to the "
-            "Lean model of the arm and compares its decision and clause counts with the emitted module",
+            "Lean model of the arm and compares its decision and clause counts with the emitted module. Text leg (harness/src/c02/text.rs, "
+            "every program of C02.gen / C02.vfn / C02.vex / C02.dup): the text of the public route rssl_msl::export_to_msl must be "
+            "rssl_formatter::format(hooked tree, Msl), and the body of every emitted function and every file-scope initialiser, printed by "
+            "the real formatter for Target::Msl and read back by the real rssl preprocessor + parser (C09's harness machinery, "
+            "c09::statement_text_trip), must be the same tree (a negative literal = the unary minus of its magnitude); a body that reads "
+            "back differently fails every request of its function, and in C02.gen the re-read module is run by the Metal evaluator against "
+            "the IR; statements the rssl parser cannot read (the trampoline's local `out`, braced struct lists) are counted, not judged. "
+            "Operator chains (sem.rs chain_programs, every tier): {float, int, uint, bool} x every accepted binary operator x 12-16 shapes "
+            "(right-nested, both sides, same-precedence partners, below casts / calls / ?: / unary minus / comma, statement forms) on grids "
+            "where float regrouping changes the IEEE result (1e30, -1e30, 1; 2^24, 1, 1; 1e-30, 1e30, 1e30)",
     "level_text": "Proof of the logic of implicit threading: the usage fixpoint loop (modelled with explicit key iteration "
                   "order, explicit unwrap failures and fuel) is proved for every table to terminate within |keys|^2+1 passes "
                   "without panicking, to compute exactly reachability through the local-use relation independently of the "
@@ -317,7 +337,16 @@ SPEC = {
                   "with the final store of ONE evaluation (also through the one-element branch and for n = 0); repeatable_operand_is_pure_ir: the "
                   "same on C01's typed IR (Ir.eval) for every World / Prim; index_blind_test_repeats_effect: the test of seeded mutant C02-3 is "
                   "not sound and S { arr[i++], arr[i++] } differs from one evaluation (negation with witness). The model of the arm is tied to "
-                  "the code by the pinned text and by stream C02.dup (0 disagreements).",
+                  "the code by the pinned text and by stream C02.dup (0 disagreements). Text leg: all of the above speaks about the syntax tree "
+                  "the back end hands to rssl_formatter; that the emitted TEXT denotes this tree is property C09's, whose obligations are "
+                  "obligations of C02 too (Gen.FmtTables / ParseTables / SyntaxTables regenerated and Thm.C09 built in every C02 run; cited: "
+                  "tables_agree, assoc_agrees, ternary_level, unary_tables_agree, paren_rule_matches_grammar, roundtrip_expr_partial, "
+                  "roundtrip_subexpr_partial, roundtrip_xexpr_partial, roundtrip_stmt_partial, roundtrip_block_partial, roundtrip_decl_partial, "
+                  "negative_literal_binds_like_minus, source_fingerprints), composed with gen_sem_* INFORMALLY (different tree types) and tied on "
+                  "every generated program by the harness round trip through the real printer (Target::Msl) and the real parser; "
+                  "Thm/C02Text.right_nested_chain_regrouped_changes_meaning: the tree the model emits for x + (y + z) on floats means what the "
+                  "IR means while the left-nested tree, which the text x + y + z of seeded mutant C02-4 denotes, evaluates differently under a "
+                  "non-associative interpretation of the float primitive (negation witness; the trees agree on ints).",
     "trusted_base": [
         "Lean 4.33 kernel; axioms propext / Classical.choice / Quot.sound only (audited by #print axioms)",
         "tools/gens/c02.py (UsageTables): match-arm/field inventory of gather_usage_*, regex shape facts about "
@@ -375,6 +404,10 @@ SPEC = {
         "arrays, enums, methods, references, aggregates and the metal:: library names (uninterpreted built-ins of c01/vval.rs "
         "under the name of the RSSL built-in they implement; `1 / x` = rcp; select argument order reversed); compared with "
         "the Lean VMsl.eval through the model answers of C02.vex, and with C01's IR evaluator on every C02.vfn case",
+        "text leg: the rssl parser is used as the reader of the emitted Metal text (function bodies of the subset are C-like; Metal and "
+        "rssl agree on the precedence and associativity of the C operators, ?: and the comma — our reading of the MSL / C++14 grammar); "
+        "harness/src/c09.rs statement_text_trip + C09's serialisation / ambiguity resolution (ser_stmt, resolve_stmt, align); C09's "
+        "trusted base for the cited theorems (tools/gens/c09.py, Model/Format*.lean, Model/Parse*.lean)",
     ],
     "assumptions": [
         "names: every global/function/parameter keeps a distinct Metal name (C15); the model works on indices",
@@ -416,5 +449,9 @@ SPEC = {
         "is not a call of one library function (sign on ints, rcp only as `1 / x`) are skipped or read as stated above; initial "
         "values of threaded statics are taken from the IR evaluation (their initialisers are emitted by the entry wrapper, "
         "pipeline.rs, which verif_generate_ast does not run)",
+        "text leg: statements the rssl parser cannot read are outside the trip (today: the trampoline's `T out = f(...); return out;` — "
+        "`out` is an rssl keyword — and braced struct lists `S { v, v }`; counted in the evidence's input distribution as "
+        "text:stmt:unreadable); signatures (`thread T& p`), struct and global declarations are covered by the tie (a) only; a literal "
+        "with a negative value and the unary minus of its magnitude are one tree",
     ],
 }
